@@ -340,6 +340,8 @@ impl<K: CacheKey + 'static> DiskCache<K> {
                 .open(&temp_path)
                 .map_err(CacheError::Io)?;
 
+            #[cfg(feature = "verif-hooks")]
+            crate::verif_hooks::sched_point("disk.write.tmp_opened");
             file.write_all(data).map_err(CacheError::Io)?;
             file.flush().map_err(CacheError::Io)?;
 
@@ -356,6 +358,8 @@ impl<K: CacheKey + 'static> DiskCache<K> {
             }
         }
 
+        #[cfg(feature = "verif-hooks")]
+        crate::verif_hooks::sched_point("disk.write.tmp_written");
         // Atomic rename
         fs::rename(&temp_path, path).map_err(CacheError::Io)?;
 
@@ -490,6 +494,8 @@ impl<K: CacheKey + 'static> AsyncCache<K> for DiskCache<K> {
             index.get(key).cloned()
         };
 
+        #[cfg(feature = "verif-hooks")]
+        crate::verif_hooks::sched_point("disk.get.looked_up");
         if let Some(entry) = entry_info {
             if entry.is_expired() {
                 // Remove expired entry
@@ -510,6 +516,8 @@ impl<K: CacheKey + 'static> AsyncCache<K> for DiskCache<K> {
             // Read file content
             match self.read_file(&entry.file_path).await {
                 Ok(data) => {
+                    #[cfg(feature = "verif-hooks")]
+                    crate::verif_hooks::sched_point("disk.get.file_read");
                     // Update access time
                     if let Ok(mut index) = self.index.write()
                         && let Some(entry) = index.get_mut(key)
@@ -590,6 +598,8 @@ impl<K: CacheKey + 'static> AsyncCache<K> for DiskCache<K> {
         // Write data to disk
         self.write_file(&file_path, &value).await?;
 
+        #[cfg(feature = "verif-hooks")]
+        crate::verif_hooks::sched_point("disk.put.file_renamed");
         // Update index
         {
             let mut index = self
